@@ -17,7 +17,8 @@ W, R = "UVLWriter", "UVLReader"
 UVL_NAMES = {
     "plain": "Alpha_1", "space": "two words", "punct": "x-y+z", "unicode": "Raíz",
     "digit-first": "2fast", "underscore-first": "_u", "keyword": "or", "keyword-type": "Integer",
-    "opword": "AND", "brackets": "a[1]{b}", "keyword-features": "features",
+    "opword": "AND", "brackets": "a[1]{b}", "keyword-features": "features", "digits": "64",
+    "number-like": "1e3", "case-variant": "alpha_1", "true": "true",
 }
 
 
